@@ -12,6 +12,11 @@ get_rev_id / revision_id_to_revno / dotted_revno_to_revision_id /
 revision_id_to_dotted_revno / get_revision_id_to_revno_map /
 iter_merge_sorted_revisions and RevisionSpec.in_history / as_revision_id, on
 locked and unlocked branches and in several query orders (the caches differ).
+Tip moves: for every two-tip history and both orders of (old tip, new tip) (and
+tip <-> parent for single-tip histories <= 4) a write-locked, cache-warm Branch
+object is moved by set_last_revision_info / generate_revision_history /
+pull(overwrite) while audit hooks on pre/post_change_branch_tip query the history
+APIs; the oracle for the new tip is then run on the same object and after reopening.
 Oracle: reference graph computations on the declarative DAG written from the
 documented definitions (left-hand history, merge-sorted numbering rules), the
 bijection / round trip laws of the statement, and each specifier's help text.
@@ -469,6 +474,114 @@ def api_checks(acc, b, w, detail, tag):
                 v("iter_merge_sorted_revisions:%s-stop-is-not-a-prefix" % rule, stop=stop, got=got)
 
 
+# --------------------------------------------------------------------------
+# tip moves on a live, locked Branch object (the history caches must follow the tip)
+
+class _Prefixed:
+    """Accumulator proxy that prefixes the signatures of api_checks / judge."""
+
+    def __init__(self, acc, prefix):
+        object.__setattr__(self, "_acc", acc)
+        object.__setattr__(self, "_prefix", prefix)
+
+    def violation(self, sig, detail):
+        self._acc.violation(self._prefix + sig, detail)
+
+    def __getattr__(self, name):
+        return getattr(self._acc, name)
+
+    def __setattr__(self, name, value):
+        setattr(self._acc, name, value)
+
+
+MOVES = ("set_last_revision_info", "generate_revision_history", "pull-overwrite")
+HOOK_LABEL = "verif-c22-audit"
+
+
+def check_tip_moves(acc, store, dag, ghosts, pairs):
+    """For every (old tip, new tip): warm the caches of a write-locked Branch object at the old
+    tip, move the tip by each of MOVES while read-only audit hooks on pre/post_change_branch_tip
+    query the history APIs on params.branch, then run the revno / dotted / specifier oracle for
+    the NEW tip on the same still-locked object, and again on a freshly opened branch."""
+    from breezy.branch import Branch
+    url = store.url + "b/"
+    ref = dw.Ref(dag, ghosts)
+    present = [i for i in range(len(dag)) if i not in ref.ghosts]
+    tags = std_tags(present)
+    for old, new in pairs:
+        w_old = World(dag, ghosts, old, tags)
+        w_new = World(dag, ghosts, new, tags)
+        acc.nt(("move", dag, tuple(sorted(ghosts)), old, new))
+        for method in MOVES:
+            detail = {"dag": dag, "ghosts": sorted(ghosts), "old_tip": old, "new_tip": new, "move": method}
+            dw.set_tip(Branch.open(url), ref, old)
+            ob = Branch.open(store.url + "o/")
+            dw.set_tip(ob, ref, new)
+            ob = Branch.open(store.url + "o/")
+            b = Branch.open(url)
+            b.lock_write()
+            try:
+                # warm every history cache for the old tip
+                api_checks(_Prefixed(acc, "tipmove:before:"), b, w_old, detail, "before-move")
+                state = {"pre": 0, "post": 0}
+
+                def pre(params, state=state, b=b):
+                    if params.branch is not b:
+                        return
+                    state["pre"] += 1
+                    api_checks(_Prefixed(acc, "tipmove:pre-hook:"), params.branch, w_old, detail, "pre-hook")
+
+                def post(params, state=state, b=b):
+                    if params.branch is not b:
+                        return
+                    state["post"] += 1
+                    api_checks(_Prefixed(acc, "tipmove:post-hook:"), params.branch, w_new, detail, "post-hook")
+
+                Branch.hooks.install_named_hook("pre_change_branch_tip", pre, HOOK_LABEL)
+                Branch.hooks.install_named_hook("post_change_branch_tip", post, HOOK_LABEL)
+                try:
+                    acc.n += 1
+                    try:
+                        if method == "set_last_revision_info":
+                            b.set_last_revision_info(w_new.L, rid(new))
+                        elif method == "generate_revision_history":
+                            b.generate_revision_history(rid(new))
+                        else:
+                            b.pull(ob, overwrite=True)
+                    except Exception as e:  # noqa
+                        acc.violation("tipmove:%s:%s" % (method, dw.exc_sig(e)), detail)
+                        continue
+                finally:
+                    Branch.hooks.uninstall_named_hook("pre_change_branch_tip", HOOK_LABEL)
+                    Branch.hooks.uninstall_named_hook("post_change_branch_tip", HOOK_LABEL)
+                if state["pre"] != 1 or state["post"] != 1:
+                    acc.violation("tipmove:hooks-not-run-exactly-once", dict(detail, runs=state))
+                # the same, still locked object must now answer for the new tip
+                pa = _Prefixed(acc, "tipmove:same-object:")
+                api_checks(pa, b, w_new, detail, "after-move-same-object")
+                for how in ("in_history", "as_revision_id"):
+                    for string, expected, cls in all_specs(w_new, how, [], nested=False):
+                        judge(pa, w_new, string, cls, expected, resolve(b, string, how), how, True, detail)
+                api_checks(pa, b, w_new, detail, "after-move-and-specs-same-object")
+            finally:
+                b.unlock()
+            b2 = Branch.open(url)
+            with b2.lock_read():
+                pa = _Prefixed(acc, "tipmove:reopened:")
+                api_checks(pa, b2, w_new, detail, "after-move-reopened")
+                for string, expected, cls in all_specs(w_new, "in_history", [], nested=False):
+                    judge(pa, w_new, string, cls, expected, resolve(b2, string, "in_history"), "in_history", True, detail)
+            acc.count("tip_moves")
+
+
+def std_tags(present):
+    tags = {"t%d" % i: rid(i) for i in present}
+    if len(present) > 1:
+        tags[rid(present[0]).decode()] = rid(present[-1])     # a tag that looks like another revision's id
+    tags["tghost"] = b"not-present"
+    return tags
+
+
 def check_branch(acc, store, dag, ghosts, tip, others):
     """All checks for the branch 'b' pointed at tip.  others: [(name, tip)] further branches."""
     from breezy.branch import Branch
@@ -477,10 +590,7 @@ def check_branch(acc, store, dag, ghosts, tip, others):
     b = Branch.open(url)
     dw.set_tip(b, ref, tip)
     present = [i for i in range(len(dag)) if i not in ref.ghosts]
-    tags = {"t%d" % i: rid(i) for i in present}
-    if len(present) > 1:
-        tags[rid(present[0]).decode()] = rid(present[-1])     # a tag that looks like another revision's id
-    tags["tghost"] = b"not-present"
+    tags = std_tags(present)
     with b.lock_write():
         for k in sorted(b.tags.get_tag_dict()):
             b.tags.delete_tag(k)
@@ -563,10 +673,15 @@ def _work(chunk):
                     check_ancestor_only(acc, store, dag, ghosts, tip, o)
                 if n <= 2 and not ghosts:
                     check_branch(acc, store, dag, ghosts, None, [("o", tip)])
+                if n <= 4:
+                    # tip moved back to each parent and forward again
+                    ps = [p for p in dag[tip] if p not in ghosts]
+                    check_tip_moves(acc, store, dag, ghosts, [(tip, p) for p in ps] + [(p, tip) for p in ps])
             else:
                 a, c = hs
                 check_branch(acc, store, dag, ghosts, a, [("o", c)])
                 check_branch(acc, store, dag, ghosts, c, [("o", a)])
+                check_tip_moves(acc, store, dag, ghosts, [(a, c), (c, a)])
         finally:
             store.close()
     return acc
@@ -664,6 +779,7 @@ def run(ctx):
         "distinct_outcomes": len(acc.outcomes),
         "max_dag_nodes": N, "max_dag_nodes_two_tips": N2, "max_dag_nodes_ghost": GN,
         "needs_lock_observations": needs,
+        "tip_moves_with_audit_hooks": acc.counters.get("tip_moves", 0),
         "violations_raw": acc.counters.get("violations_raw", 0),
         "samples": acc.samples[:3],
         "exhaustive": True,
